@@ -241,6 +241,26 @@ Theorem C06_source_tie_cleanup_new_ring : forall newRing isOuter isMulti,
 Proof. exact gen_cleanupNewRing_spec. Qed.
 Print Assumptions C06_source_tie_cleanup_new_ring.
 
+From Texel Require Import Snap.ProofsGenSplitTail.
+From Texel.Gen Require Import SplitTailGen.
+
+(** ** tie G2, PARTIAL for splitRing: only its LAST part (from [completeRingKeys := maps.Keys(completeRings)] on:
+    the complete rings in increasing key order classified by size and winding order, and reversed + swapped when all
+    landed on the wrong side) is REGENERATED from source on this run (gen/SplitTailGen.v), and the model's splitRing
+    is shown to end with it.  MISSING for a full tie: the first part of splitRing, the ordered-map stack walk
+    ([splitLoop] / [splitStep] / [prependLoop]) that produces the complete rings — hand-modelled, held by the
+    correspondence only.  Modelled inside the translated part: [windingOrderIsCorrect]; the Go map read through
+    [maps.Keys] + [sort.Ints] as its entries in key order; [slices.Reverse] on the range variable as a value. *)
+Theorem C06_source_tie_split_ring_partial :
+  (forall isOuter (c : complete), gen_splitRing_tail isOuter c = Ok (split_tail isOuter (map snd c))) /\
+  (forall r isOuter isMulti,
+     splitRing r isOuter isMulti
+     = do r0 <- idx r 0;
+       do st <- splitLoop isMulti (zlen (r ++ [r0])) (mkSplit 0 [(0, [])] []) 0 (r ++ [r0]);
+       gen_splitRing_tail isOuter (sortComplete (sDone st))).
+Proof. split; [exact gen_splitRing_tail_spec | exact splitRing_ends_with_gen_tail]. Qed.
+Print Assumptions C06_source_tie_split_ring_partial.
+
 From Texel Require Import Index.ProofsInsert Snap.ModelFull Snap.ProofsFull.
 Theorem C06_full_model_agrees_upto_level_32 : forall g P levels cfg, (gdeep g <= 32)%nat ->
   snapPolygonFull g P levels cfg = snapPolygon g P levels cfg.
